@@ -422,8 +422,13 @@ findEntryAndExitPoints (
 
     const T TMAX = std::numeric_limits<T>::max ();
 
-    T tFrontMax = -TMAX;
-    T tBackMin  = TMAX;
+    //
+    // A ray-plane distance can be as large as +/-TMAX (a side of the
+    // box at the largest finite value): start beyond that.
+    //
+
+    T tFrontMax = -std::numeric_limits<T>::infinity ();
+    T tBackMin  = std::numeric_limits<T>::infinity ();
 
     //
     // Minimum and maximum X sides.
@@ -435,7 +440,8 @@ findEntryAndExitPoints (
         T d2 = b.min.x - r.pos.x;
 
         if (r.dir.x > 1 ||
-            (abs (d1) < TMAX * r.dir.x && abs (d2) < TMAX * r.dir.x))
+            (r.dir.x > 0 && abs (d1) <= TMAX * r.dir.x &&
+             abs (d2) <= TMAX * r.dir.x))
         {
             T t1 = d1 / r.dir.x;
             T t2 = d2 / r.dir.x;
@@ -469,7 +475,7 @@ findEntryAndExitPoints (
         T d2 = b.max.x - r.pos.x;
 
         if (r.dir.x < -1 ||
-            (abs (d1) < -TMAX * r.dir.x && abs (d2) < -TMAX * r.dir.x))
+            (abs (d1) <= -TMAX * r.dir.x && abs (d2) <= -TMAX * r.dir.x))
         {
             T t1 = d1 / r.dir.x;
             T t2 = d2 / r.dir.x;
@@ -508,7 +514,8 @@ findEntryAndExitPoints (
         T d2 = b.min.y - r.pos.y;
 
         if (r.dir.y > 1 ||
-            (abs (d1) < TMAX * r.dir.y && abs (d2) < TMAX * r.dir.y))
+            (r.dir.y > 0 && abs (d1) <= TMAX * r.dir.y &&
+             abs (d2) <= TMAX * r.dir.y))
         {
             T t1 = d1 / r.dir.y;
             T t2 = d2 / r.dir.y;
@@ -542,7 +549,7 @@ findEntryAndExitPoints (
         T d2 = b.max.y - r.pos.y;
 
         if (r.dir.y < -1 ||
-            (abs (d1) < -TMAX * r.dir.y && abs (d2) < -TMAX * r.dir.y))
+            (abs (d1) <= -TMAX * r.dir.y && abs (d2) <= -TMAX * r.dir.y))
         {
             T t1 = d1 / r.dir.y;
             T t2 = d2 / r.dir.y;
@@ -581,7 +588,8 @@ findEntryAndExitPoints (
         T d2 = b.min.z - r.pos.z;
 
         if (r.dir.z > 1 ||
-            (abs (d1) < TMAX * r.dir.z && abs (d2) < TMAX * r.dir.z))
+            (r.dir.z > 0 && abs (d1) <= TMAX * r.dir.z &&
+             abs (d2) <= TMAX * r.dir.z))
         {
             T t1 = d1 / r.dir.z;
             T t2 = d2 / r.dir.z;
@@ -615,7 +623,7 @@ findEntryAndExitPoints (
         T d2 = b.max.z - r.pos.z;
 
         if (r.dir.z < -1 ||
-            (abs (d1) < -TMAX * r.dir.z && abs (d2) < -TMAX * r.dir.z))
+            (abs (d1) <= -TMAX * r.dir.z && abs (d2) <= -TMAX * r.dir.z))
         {
             T t1 = d1 / r.dir.z;
             T t2 = d2 / r.dir.z;
